@@ -312,8 +312,13 @@ def c03_2(c: Ctx) -> None:
     raises = [n for n in g.live_nodes() if n.kind == 'raise']
     for rn in raises:
         types = {e.exc.name for e in rn.succ if e.exc is not None}
+        arm = next((h for h in ast.walk(u.node) if isinstance(h, ast.ExceptHandler) and any(x is rn.ast for b in h.body for x in ast.walk(b))), None) if isinstance(rn.ast, ast.Raise) else None
         if types <= {'CancelledError'}:
             c.ok(where(u, rn.ast), 'explicit raise only re-raises CancelledError')
+        elif arm is not None and rn.ast.exc is None and (arm.type is None or U(arm.type) in ('Exception', 'BaseException')):
+            # the clean-up idiom `except <catch-all>: <clean up>; raise` lets escape exactly what escapes a `try/finally` around the same body: nothing is raised that was not
+            # already on its way out (a catch-all arm swallows nothing it re-raises); arms that name a specific class stay judged (today they swallow: QueueEmpty)
+            c.ok(where(u, rn.ast), f'bare re-raise in a catch-all clean-up arm (`except {U(arm.type) if arm.type else ""}`): propagates what was escaping anyway, as try/finally does')
         else:
             c.fail(u, f'raises {sorted(types)}: {q.stmt_text(rn.ast, 80)}', f'awaiting an event can raise {sorted(types)} (handler errors must not be raised by await)', node=rn.ast)
     if not raises:
